@@ -30,7 +30,8 @@ def main():
         'quick-xml preset (the binding rules of the other preset are C10\'s subject)',
         'the bounded skeletons are complemented by C03 (two-sided exactness, which implies soundness of the tree) on larger skeletons with plain names',
     ]
-    if c.setup():
+    c.setup()          # a failed conformance gate makes run() fall back to native replay of solver-enumerated inputs
+    if True:
         for label, kw in configs(c.tier):
             c.run(label, 'rsym.hn', 'Soundness', kw, required_witnesses=('an Option field',), time_cap=600 if c.tier == 'quick' else 900)
     c.finish(bounds={'skeletons': [l for l, _ in configs(c.tier)]}, outside=['names outside the pools', 'documents outside the skeletons', 'bytes -> events'],
